@@ -225,6 +225,7 @@ func runCmp3way(c *Ctx) {
 	// CMP-lossless: the integer reaches an integer comparison
 	var intCmp []*ssa.BinOp
 	onlyViaFloat := true
+	viaHelper := false
 	for _, r := range *i.Referrers() {
 		switch x := r.(type) {
 		case *ssa.BinOp:
@@ -236,9 +237,15 @@ func runCmp3way(c *Ctx) {
 			if b, ok := x.Type().Underlying().(*types.Basic); !ok || b.Info()&types.IsFloat == 0 {
 				onlyViaFloat = false
 			}
+		case *ssa.Call:
+			// handed, as an integer, to the integer three-way helper (whose sign table is decided above)
+			if cal := x.Call.StaticCallee(); cal != nil && p.FnKey(cal) == "db.cmpInt64" {
+				onlyViaFloat = false
+				viaHelper = true
+			}
 		}
 	}
-	c.Check(!onlyViaFloat && len(intCmp) > 0, "cmpIntFloat: lossless", fn.Pos(), "the integer operand is compared as an integer (not only through float64(i), which maps 2^53 and 2^53+1 to the same value)")
+	c.Check(!onlyViaFloat && (len(intCmp) > 0 || viaHelper), "cmpIntFloat: lossless", fn.Pos(), "the integer operand is compared as an integer (not only through float64(i), which maps 2^53 and 2^53+1 to the same value)")
 	// the float→int conversion is guarded by the range checks
 	var conv *ssa.Convert
 	for _, r := range *f.Referrers() {
@@ -250,7 +257,11 @@ func runCmp3way(c *Ctx) {
 		c.Fail("cmpIntFloat: integral part", fn.Pos(), "the real operand is never truncated to its integral part for an integer comparison")
 		return
 	}
-	paths, ok := EnumLits(fn.Blocks[0], 0, TabOpts{Termer: t, EventOf: callEvents(p)})
+	also := map[*ssa.Function]bool{}
+	if h := findFn(p, "db.cmpInt64"); h != nil {
+		also[h] = true
+	}
+	paths, ok := EnumLits(fn.Blocks[0], 0, TabOpts{Termer: t, EventOf: callEvents(p), InlineAlso: also})
 	if !ok {
 		c.Undecided("cmpIntFloat: paths", fn.Pos(), "too many paths")
 		return
@@ -295,9 +306,9 @@ func runCmp3way(c *Ctx) {
 			c.Check(res == "const:-1", key, lp.Exit.Pos(), "real ≥ 2^63 ⇒ every integer is smaller (−1); returns %s", res)
 		case usesConv && !(inLo && inHi):
 			c.Fail(key, conv.Pos(), "int64(f) is compared on a path that did not establish −2^63 ≤ f < 2^63 (the conversion is undefined outside that range)")
-		case lp.Holds(iT+"−"+fT, token.LSS, "0"):
+		case onlySign(lp, iT+"−"+fT, -1):
 			c.Check(res == "const:-1", key, lp.Exit.Pos(), "i < ⌊f⌋ ⇒ −1; returns %s", res)
-		case lp.Holds(iT+"−"+fT, token.GTR, "0"):
+		case onlySign(lp, iT+"−"+fT, 1):
 			c.Check(res == "const:1", key, lp.Exit.Pos(), "i > ⌊f⌋ ⇒ +1; returns %s", res)
 		case lp.Holds(fT+"−"+fT, token.NEQ, "0"):
 			c.Pass(key, lp.Exit.Pos(), "NaN (never stored by SQLite): returns %s", res)
@@ -314,6 +325,22 @@ func runCmp3way(c *Ctx) {
 		}
 	}
 	_ = math.Inf
+}
+
+// onlySign: the path's literals on subject (a difference a−b) leave exactly the sign sgn possible — however the
+// three-way test is spelled (`a < b`, `!(a >= b)`, `a != b` after `!(a < b)` …).
+func onlySign(lp *LPath, subject string, sgn int64) bool {
+	has := false
+	for _, l := range lp.Lits {
+		if l.Subject == subject && l.IsInt {
+			has = true
+		}
+	}
+	if !has {
+		return false
+	}
+	ss := signsConsistent(lp, subject)
+	return len(ss) == 1 && ss[0] == sgn
 }
 
 func contradictsSwapped(lp *LPath, swapped string, sgn int64) bool {
@@ -360,13 +387,43 @@ func loopHeaders(fn *ssa.Function) []*ssa.BasicBlock {
 // to the header.
 func bodyPaths(p *Program, fn *ssa.Function, t *Termer) (*ssa.BasicBlock, []*LPath, bool) {
 	hs := loopHeaders(fn)
+	var bind map[*ssa.Parameter]ssa.Value
+	if len(hs) == 0 {
+		// the loop may have moved into a freshly extracted helper that fn merely delegates to
+		// (`func (l *T) cellIter(db, cb) { return l.cellIterFrom(0, cb) }`): one generic iteration of the helper's loop,
+		// with the helper's parameters bound to what fn passes
+		if h, b := loopDelegate(fn); h != nil {
+			hs, bind = loopHeaders(h), b
+		}
+	}
 	if len(hs) != 1 {
 		return nil, nil, false
 	}
 	h := hs[0]
-	paths, ok := EnumLits(h, 0, TabOpts{Termer: t, EventOf: callEvents(p),
+	paths, ok := EnumLits(h, 0, TabOpts{Termer: t, EventOf: callEvents(p), InitBind: bind,
 		Stop: func(in ssa.Instruction, ps *pathState) bool { return in == h.Instrs[0] && len(ps.Path) > 1 }})
 	return h, paths, ok
+}
+
+// loopDelegate: fn contains no loop and makes exactly one call to a freshly extracted helper that has exactly one.
+func loopDelegate(fn *ssa.Function) (*ssa.Function, map[*ssa.Parameter]ssa.Value) {
+	var found *ssa.Function
+	var bind map[*ssa.Parameter]ssa.Value
+	for _, cs := range callsIn(fn) {
+		h := cs.Common().StaticCallee()
+		if h == nil || inlinable == nil || !inlinable(h) || len(loopHeaders(h)) != 1 || len(h.Params) != len(cs.Common().Args) {
+			continue
+		}
+		if found != nil {
+			return nil, nil
+		}
+		found = h
+		bind = map[*ssa.Parameter]ssa.Value{}
+		for k, a := range cs.Common().Args {
+			bind[h.Params[k]] = a
+		}
+	}
+	return found, bind
 }
 
 func signsConsistent(lp *LPath, subject string) []int64 {
